@@ -446,14 +446,19 @@ func newIdleTimeoutBody(body io.ReadCloser, timeout time.Duration) *idleTimeoutB
 		atomic.StoreInt32(&b.timedOut, 1)
 		_ = b.body.Close()
 	})
+	b.timer.Stop() // armed by Read
 	return b
 }
 
 func (b *idleTimeoutBody) Read(p []byte) (int, error) {
-	n, err := b.body.Read(p)
-	if n > 0 {
+	// The timeout bounds how long one read waits for the backend. Between two reads the
+	// proxy is busy handing what it has read to the client, and a client that is slow to
+	// take it says nothing about the backend: the timer only runs while a read is waiting
+	if atomic.LoadInt32(&b.timedOut) == 0 {
 		b.timer.Reset(b.timeout)
 	}
+	n, err := b.body.Read(p)
+	b.timer.Stop()
 	if err != nil && err != io.EOF && atomic.LoadInt32(&b.timedOut) == 1 {
 		err = fmt.Errorf("backend sent nothing for %v: %w", b.timeout, err)
 	}
